@@ -5,7 +5,7 @@
 # "does the check still see the original defect?". /repo is restored after every commit.
 cd /repo || exit 2
 git diff --quiet || { echo "/repo not clean"; exit 2; }
-OUT=/verif/target/revert-drill; mkdir -p $OUT; : > $OUT/summary.txt
+OUT=/verif/target/revert-drill; mkdir -p $OUT; touch $OUT/summary.txt   # resumes: pairs already in summary.txt are skipped
 python3 - <<'PY' > $OUT/plan.txt
 import json
 d=json.load(open('/verif/known_findings.json'))
@@ -16,11 +16,13 @@ for c,ps in seen.items(): print(c,' '.join(sorted(set(ps))))
 PY
 while read C PROPS; do
   SUBJ=$(git log -1 --format=%s $C | sed 's/^fix: //' | tr -c 'A-Za-z0-9' '_' | cut -c1-40 | tr 'A-Z' 'a-z')
+  grep -q "^$C .*skipped" $OUT/summary.txt && continue
   if ! git revert --no-commit $C >/dev/null 2>&1; then
     git revert --abort 2>/dev/null; git reset -q --hard HEAD
     echo "$C $SUBJ: revert conflicts with later fixes (skipped)" >> $OUT/summary.txt; continue
   fi
   for P in $PROPS; do
+    grep -q "^$C $P " $OUT/summary.txt && continue
     RD=$OUT/$C-$P; rm -rf $RD; mkdir -p $RD
     R=$(cd /verif && AXVERIF_REPLAY_DIR=$RD ./check $P quick 2>&1); RC=$?
     NV=$(echo "$R" | grep -c "^VIOLATION")
